@@ -6,6 +6,7 @@ package drv
 import (
 	"fmt"
 	"os"
+	"reflect"
 	"runtime"
 	"runtime/debug"
 	"sort"
@@ -25,10 +26,12 @@ type Config struct {
 	Offset   int       // number of dummy component types registered first (ID placement)
 	Universe []ct.Comp // components registered up front, in this order
 	RelMode  api.RelMode
+	AutoPad  int // 1: the explorer pads so that the table slice is full before the last op; 2: same for the archetype slice
+	Pad      int // number of empty filler archetypes (one table each) created up front, so that table / archetype slices are near their capacity
 }
 
 func (c Config) String() string {
-	return fmt.Sprintf("cap=%d/%d offset=%d relmode=%d universe=%v", c.Cap, c.CapRel, c.Offset, c.RelMode, c.Universe)
+	return fmt.Sprintf("cap=%d/%d offset=%d relmode=%d autopad=%d pad=%d universe=%v", c.Cap, c.CapRel, c.Offset, c.RelMode, c.AutoPad, c.Pad, c.Universe)
 }
 
 // Oracle selects the oracle components evaluated by Observe.
@@ -142,6 +145,13 @@ func NewWorld(cfg Config, filters []model.FilterSpec, obs []model.ObsSpec, slots
 	api.RegisterDummies(w, cfg.Offset)
 	for _, c := range cfg.Universe {
 		x.Env.ID(c)
+	}
+	// filler archetypes: one entity with one filler component each, removed again; the
+	// archetypes and their tables stay (ark never drops them), no entity stays alive
+	for i := 0; i < cfg.Pad; i++ {
+		id := ecs.TypeID(w, reflect.ArrayOf(300+i, reflect.TypeFor[int8]()))
+		e := w.Unsafe().NewEntity(id)
+		w.RemoveEntity(e)
 	}
 	return x
 }
@@ -985,4 +995,30 @@ func (x *World) probeLocked(e ecs.Entity) {
 			return
 		}
 	}
+}
+
+// NextPad computes the number of filler archetypes with which a re-run of the current
+// history would end with the table slice (mode 1) or archetype slice (mode 2) exactly at
+// its capacity (16, 32, 64: ark starts both with capacity 16 and Go doubles).
+func (x *World) NextPad(mode int) int {
+	st := x.W.Stats()
+	count := 0
+	if mode == 1 {
+		for i := range st.Archetypes {
+			count += len(st.Archetypes[i].Tables) + st.Archetypes[i].FreeTables
+		}
+	} else {
+		count = len(st.Archetypes)
+	}
+	base := count - x.Cfg.Pad
+	for _, c := range []int{16, 32, 64} {
+		if base <= c {
+			pad := c - base
+			if x.Cfg.Offset+len(x.Cfg.Universe)+pad > 200 {
+				return 0
+			}
+			return pad
+		}
+	}
+	return 0
 }
